@@ -532,7 +532,8 @@ var (
 	kindsResize = []string{"req", "req", "req", "req", "req", "req", "req", "req", "req", "req", "req", "resize"}
 	kindsBurst  = []string{"req", "burst", "req"}
 	pctPool     = []float64{100, 50, 25, 20, 33.3, 12.5, 66.67, 10, 0.1, 0, 150, 75}
-	valuePool   = []string{"a", "b", "c", "a", "b", "zz", ""}
+	// values that differ only in letter case, or where one is a prefix of the other, are different groups
+	valuePool   = []string{"a", "b", "c", "a", "A", "B", "ab", "Ab", "zz", ""}
 	defaultPool = []string{"use_default_allocation", "allow", "use_default_allocation", "block", "use_default_allocation", "", "undefined"}
 	statusPool  = []int{0, 429, 503, 418}
 	allowedPool = []int64{1, 1, 2, 2, 3, 4, 5, 10}
@@ -551,7 +552,7 @@ func genRemedy(t *rapid.T, idx int, forceAlloc bool) remedySpec {
 			Default:    rapid.SampledFrom(defaultPool).Draw(t, "default"),
 			DefaultPct: rapid.SampledFrom(pctPool).Draw(t, "defpct"),
 		}
-		listed := rapid.SliceOfNDistinct(rapid.SampledFrom([]string{"a", "b", "c"}), 1, 3, rapid.ID[string]).Draw(t, "listed")
+		listed := rapid.SliceOfNDistinct(rapid.SampledFrom([]string{"a", "b", "c", "A", "ab"}), 1, 3, rapid.ID[string]).Draw(t, "listed")
 		sort.Strings(listed)
 		for _, v := range listed {
 			a.Groups = append(a.Groups, groupAlloc{Value: v, Pct: rapid.SampledFrom(pctPool).Draw(t, "pct")})
